@@ -1061,10 +1061,18 @@ class _ValueFormatter:
         The colorized value as L{ParsedDocstring}.
         """
 
-        self._linker = ctx.docstring_linker
+        self._ctx = ctx
         """
-        Linker.
+        The object the value belongs to.
         """
+
+    @property
+    def _linker(self) -> 'linker.DocstringLinker':
+        """
+        Linker: the one of the object at the time the value is presented,
+        which is not the one it had during the analysis if it has been re-exported since.
+        """
+        return self._ctx.docstring_linker
 
     def __repr__(self) -> str:
         """
@@ -1082,7 +1090,10 @@ class _AnnotationValueFormatter(_ValueFormatter):
     """
     def __init__(self, value: ast.expr, ctx: model.Function):
         super().__init__(value, ctx)
-        self._linker = linker._AnnotationLinker(ctx)
+
+    @property
+    def _linker(self) -> 'linker.DocstringLinker':
+        return linker._AnnotationLinker(self._ctx)
     
     def __repr__(self) -> str:
         """
